@@ -277,6 +277,9 @@ fn shapex_main(args: &Args) -> i32 {
         }
         let t0 = std::time::Instant::now();
         let (c1, e1, c2, e2, listed) = shapex_run(sh, thorough);
+        if c1.duplicate_tuples > 0 {
+            vsched::machinery_failure(&format!("shape {} {}: the argument domains produced {} duplicate tuples (harness error, not a verdict)", sh.name, sh.signature, c1.duplicate_tuples));
+        }
         let mut problems: Vec<(String, String)> = Vec::new();
         if e1 != c1.evals {
             problems.push(("shared-entry".into(), format!("{} distinct argument tuples, the body ran {} times: some tuples were served another tuple's entry", c1.evals, e1)));
